@@ -190,6 +190,7 @@ func c09(r *engine.Report, p *engine.Program) {
 		owned[fv] = true
 	}
 	scan(V, owned)
+	stateful = append(stateful, verifierGlobals(p, V)...)
 	r.Check("R1-stateless", "ReceptorVerifyFunc$1: keeps no state between handshakes", V.Pos(), len(stateful) == 0,
 		fmt.Sprintf("the %d variables captured from ReceptorVerifyFunc are only read by the verifier and its nested closures: each handshake is judged on its own certificate", len(V.FreeVars)),
 		fmt.Sprintf("the verifier keeps state that outlives a handshake (%v): a digest/result computed for one peer can be reused for the next", stateful))
@@ -275,6 +276,8 @@ func c09(r *engine.Report, p *engine.Program) {
 	}
 	sort.Strings(where)
 	r.Check("R4-pins-reach-verifier", "ReceptorVerifyFunc: call sites", rvf.Pos(), len(where) == 3, fmt.Sprintf("3 call sites: %v", where), fmt.Sprintf("call sites changed: %v (frozen: GetClientTLSConfig, PrepareTLSServerConfig, listen's GetConfigForClient)", where))
+
+	profileImmutableRule(r, p)
 
 	// R6 exact name match
 	prn := p.Func("utils.ParseReceptorNamesFromCert")
@@ -745,6 +748,61 @@ func listenerBindingRule(r *engine.Report, p *engine.Program, fn *ssa.Function, 
 	}
 	r.Check("R5-listener-binding", "listen: per-client verifier binds the certificate to the packet source node", cs.Pos(), okMode && okName,
 		"the verifier is built for VerifyClient in receptor-name mode with the node taken from hi.Conn.RemoteAddr()", "the per-client verifier no longer expects the packet source node's ID as a receptor name (a node could present another node's identity)")
+	// the combined verifier installed on the per-client config cannot succeed without the
+	// node-binding verifier having accepted: every return yields that verifier's result or an
+	// error just found non-nil
+	{
+		okAll, n := true, 0
+		why := "no closure calling the node-binding verifier was found"
+		if nodeV, isV := cs.(*ssa.Call); isV {
+			for _, an := range fn.AnonFuncs {
+				for _, fv := range freeVarsBoundTo(fn, an, nodeV) {
+					var nodeCalls []*ssa.Call
+					for _, ci := range engine.CallsIn(an) {
+						call, isCall := ci.(*ssa.Call)
+						if !isCall {
+							continue
+						}
+						v := ci.Common().Value
+						if u, ok := v.(*ssa.UnOp); ok {
+							v = u.X
+						}
+						if v == ssa.Value(fv) {
+							nodeCalls = append(nodeCalls, call)
+						}
+					}
+					if len(nodeCalls) == 0 {
+						continue
+					}
+					n++
+					for _, ret := range engine.Returns(an) {
+						if len(ret.Results) != 1 {
+							continue
+						}
+						res := engine.Unwrap(ret.Results[0])
+						fromNode := false
+						for _, c := range nodeCalls {
+							if res == ssa.Value(c) {
+								fromNode = true
+							}
+						}
+						if fromNode {
+							continue
+						}
+						// an error found non-nil: the return is unreachable once the non-nil edges of res are cut
+						_, nonNil := engine.NilCmpEdges(an, func(v ssa.Value) bool { return engine.Unwrap(v) == res })
+						cut := engine.EdgeSet{}.Add(nonNil...)
+						if len(nonNil) == 0 || engine.Reach(an, nil, cut, nil, func(in ssa.Instruction) bool { return in == ssa.Instruction(ret) }) != nil {
+							okAll = false
+							why = "the combined verifier can return at " + p.Pos(ret.Pos()) + " with a result that is neither the node-binding verifier's verdict nor an error just found non-nil: a client holding any trusted certificate is accepted whatever node its packets come from"
+						}
+					}
+				}
+			}
+		}
+		r.Check("R5-listener-binding", "listen: the combined verifier succeeds only through the node-binding verifier", cs.Pos(), okAll && n > 0,
+			"every return of the installed VerifyPeerCertificate closure yields nodeVerify's result or an error found non-nil", why)
+	}
 	// installed iff ClientAuth == RequireAndVerifyClientCert
 	li := fn.Parent()
 	if li == nil {
@@ -775,4 +833,262 @@ func listenerBindingRule(r *engine.Report, p *engine.Program, fn *ssa.Function, 
 	}
 	r.Check("R5-listener-binding", "listen: node-binding verifier installed for RequireAndVerifyClientCert", li.Pos(), okInst,
 		"when the profile requires client certificates, GetConfigForClient is installed before the QUIC listener is created", "a listener requiring client certificates can be created without the node-binding verifier")
+}
+
+// freeVarsBoundTo returns the free variables of closure an (created in fn) that are bound to val,
+// directly or through a cell whose only stored value is val.
+func freeVarsBoundTo(fn, an *ssa.Function, val ssa.Value) []*ssa.FreeVar {
+	var out []*ssa.FreeVar
+	for _, b := range fn.Blocks {
+		for _, in := range b.Instrs {
+			mc, ok := in.(*ssa.MakeClosure)
+			if !ok || mc.Fn != ssa.Value(an) {
+				continue
+			}
+			for bi, bd := range mc.Bindings {
+				if bd != val {
+					al, isAl := bd.(*ssa.Alloc)
+					if !isAl {
+						continue
+					}
+					holds, other := false, false
+					if refs := al.Referrers(); refs != nil {
+						for _, rr := range *refs {
+							if st, ok := rr.(*ssa.Store); ok && st.Addr == ssa.Value(al) {
+								if st.Val == val {
+									holds = true
+								} else {
+									other = true
+								}
+							}
+						}
+					}
+					if !holds || other {
+						continue
+					}
+				}
+				out = append(out, an.FreeVars[bi])
+			}
+		}
+	}
+	return out
+}
+
+// profileImmutableRule (R7): a named TLS profile stored in the Netceptor maps is shared by every
+// later user; whoever customises a config (verifier, ServerName, NextProtos, ...) must do it on a
+// private copy. Every store to a crypto/tls.Config field in receptor code targets a config that
+// is freshly made in that function: a composite literal / new, the result of (*tls.Config).Clone,
+// or the result of a receptor function all of whose returned configs are fresh.
+func profileImmutableRule(r *engine.Report, p *engine.Program) {
+	freshFn := map[*ssa.Function]int{} // 0 unknown, 1 computing, 2 fresh, 3 not fresh
+	var isFresh func(v ssa.Value, depth int) bool
+	var returnsFresh func(fn *ssa.Function) bool
+	returnsFresh = func(fn *ssa.Function) bool {
+		switch freshFn[fn] {
+		case 1, 2:
+			return true
+		case 3:
+			return false
+		}
+		freshFn[fn] = 1
+		ok := len(fn.Blocks) > 0
+		for _, ret := range engine.Returns(fn) {
+			for _, res := range ret.Results {
+				if isTLSConfigPtr(res.Type()) && !isFresh(res, 0) {
+					ok = false
+				}
+			}
+		}
+		if ok {
+			freshFn[fn] = 2
+		} else {
+			freshFn[fn] = 3
+		}
+		return ok
+	}
+	isFresh = func(v ssa.Value, depth int) bool {
+		if depth > 8 {
+			return false
+		}
+		switch x := v.(type) {
+		case *ssa.Alloc:
+			if isTLSConfigPtr(x.Type()) {
+				return true // new(tls.Config) / &tls.Config{}
+			}
+			// a variable cell holding *tls.Config: every stored value is fresh (or nil)
+			refs := x.Referrers()
+			if refs == nil {
+				return false
+			}
+			n := 0
+			for _, rr := range *refs {
+				if st, ok := rr.(*ssa.Store); ok && st.Addr == ssa.Value(x) {
+					n++
+					if !isFresh(st.Val, depth+1) {
+						return false
+					}
+				}
+			}
+			return n > 0
+		case *ssa.Const:
+			return x.IsNil()
+		case *ssa.Phi:
+			for _, e := range x.Edges {
+				if e != v && !isFresh(e, depth+1) {
+					return false
+				}
+			}
+			return true
+		case *ssa.UnOp:
+			if x.Op == token.MUL {
+				// load of a variable cell: every store that can reach this load without an
+				// intervening store to the same cell holds a fresh config
+				cell, isCell := x.X.(*ssa.Alloc)
+				if !isCell || cell.Parent() != x.Parent() || cellWrittenByClosure(cell) {
+					return isFresh(x.X, depth+1)
+				}
+				var stores []*ssa.Store
+				if refs := cell.Referrers(); refs != nil {
+					for _, rr := range *refs {
+						if st, ok := rr.(*ssa.Store); ok && st.Addr == ssa.Value(cell) {
+							stores = append(stores, st)
+						}
+					}
+				}
+				n := 0
+				for _, st := range stores {
+					other := func(in ssa.Instruction) bool {
+						o, ok := in.(*ssa.Store)
+						return ok && o != st && o.Addr == ssa.Value(cell)
+					}
+					if engine.Reach(x.Parent(), st, nil, other, func(in ssa.Instruction) bool { return in == ssa.Instruction(x) }) != nil {
+						n++
+						if !isFresh(st.Val, depth+1) {
+							return false
+						}
+					}
+				}
+				return n > 0
+			}
+		case *ssa.Extract:
+			return isFresh(x.Tuple, depth+1)
+		case *ssa.FreeVar:
+			// captured variable: resolve in the parent through the closure binding
+			fn := x.Parent()
+			par := fn.Parent()
+			if par == nil {
+				return false
+			}
+			idx := -1
+			for i, fv := range fn.FreeVars {
+				if fv == x {
+					idx = i
+				}
+			}
+			for _, b := range par.Blocks {
+				for _, in := range b.Instrs {
+					if mc, ok := in.(*ssa.MakeClosure); ok && mc.Fn == ssa.Value(fn) && idx >= 0 {
+						return isFresh(mc.Bindings[idx], depth+1)
+					}
+				}
+			}
+			return false
+		case *ssa.Call:
+			if engine.IsCallTo(x.Common(), "(*crypto/tls.Config).Clone") {
+				return true
+			}
+			if callee := x.Common().StaticCallee(); callee != nil && inReceptor(callee) {
+				return returnsFresh(callee)
+			}
+		}
+		return false
+	}
+	n := 0
+	p.AllInstrs(func(fn *ssa.Function, in ssa.Instruction) {
+		if engine.IsMock(fn) || !inReceptor(fn) {
+			return
+		}
+		st, ok := in.(*ssa.Store)
+		if !ok {
+			return
+		}
+		fa, ok := st.Addr.(*ssa.FieldAddr)
+		if !ok {
+			return
+		}
+		fv := engine.FieldAddrVar(fa)
+		if fv == nil || fv.Pkg() == nil || fv.Pkg().Path() != "crypto/tls" || !isTLSConfigPtr(fa.X.Type()) {
+			return
+		}
+		n++
+		okF := isFresh(fa.X, 0)
+		r.Check("R7-profile-immutable", fmt.Sprintf("%s: store to tls.Config.%s", engine.FuncName(fn), fv.Name()), st.Pos(), okF,
+			"the config written is a private one (fresh literal, Clone() result, or the fresh result of a receptor function)",
+			"the config written is not provably a private copy: a stored TLS profile (shared by every later dial/listen that names it) is modified in place — e.g. the verifier bound to the first expected peer stays installed for the next one")
+	})
+	r.Min("R7-profile-immutable", 10)
+}
+
+func isTLSConfigPtr(t types.Type) bool {
+	pt, ok := t.Underlying().(*types.Pointer)
+	if !ok {
+		return false
+	}
+	return pt.Elem().String() == "crypto/tls.Config"
+}
+
+func inReceptor(fn *ssa.Function) bool {
+	return fn.Pkg != nil && strings.HasPrefix(fn.Pkg.Pkg.Path(), engine.ModPath) || (fn.Parent() != nil && inReceptor(fn.Parent()))
+}
+
+// cellWrittenByClosure: some closure that captures the cell stores to it.
+func cellWrittenByClosure(cell *ssa.Alloc) bool {
+	refs := cell.Referrers()
+	if refs == nil {
+		return false
+	}
+	for _, rr := range *refs {
+		mc, ok := rr.(*ssa.MakeClosure)
+		if !ok {
+			continue
+		}
+		an := mc.Fn.(*ssa.Function)
+		for bi, bd := range mc.Bindings {
+			if bd != ssa.Value(cell) {
+				continue
+			}
+			fv := an.FreeVars[bi]
+			if fr := fv.Referrers(); fr != nil {
+				for _, u := range *fr {
+					if st, ok := u.(*ssa.Store); ok && st.Addr == ssa.Value(fv) {
+						return true
+					}
+				}
+			}
+		}
+	}
+	return false
+}
+
+// verifierGlobals lists the package-level variables of receptor packages that the verifier closure
+// (or a closure nested in it) touches: a verdict must depend on the presented certificate only.
+func verifierGlobals(p *engine.Program, V *ssa.Function) []string {
+	var out []string
+	var walk func(fn *ssa.Function)
+	walk = func(fn *ssa.Function) {
+		for _, b := range fn.Blocks {
+			for _, in := range b.Instrs {
+				for _, op := range in.Operands(nil) {
+					if g, ok := (*op).(*ssa.Global); ok && g.Pkg != nil && strings.HasPrefix(g.Pkg.Pkg.Path(), engine.ModPath) {
+						out = append(out, fmt.Sprintf("%s touches package-level variable %s at %s", engine.FuncName(fn), g.Name(), p.Pos(in.Pos())))
+					}
+				}
+			}
+		}
+		for _, an := range fn.AnonFuncs {
+			walk(an)
+		}
+	}
+	walk(V)
+	return out
 }
